@@ -245,6 +245,8 @@ PROPERTIES["C08"] = {
                                ("c08_writer_l4_k3", "thorough"), ("c08_writer_l4_k0", "quick")]]
     + [MH("c08_clear_%d_%s" % (h, s), inputs="main header with %d symbolic store bytes; previous signature header %s" % (h, s), timeout=300,
           bounds="Package::clear_signatures (MIR): the recorded SHA256 equals hex(SHA-256(serialised header)) with SHA-256 as an uninterpreted function; no signature survives") for h in (0, 3) for s in ("empty", "stale")]
+    + [MH("c08_filedigest_" + n, inputs="two add_data calls, contents symbolic", timeout=300,
+          bounds="per-file digest and size recorded when a file is added (PackageBuilder::add_data), %s destination" % n) for n in ("same", "diff")]
     + [H("c08_twin", sub="digest", role="twin", timeout=900)],
     "bounds": "the hashing writer (Sha256Writer) with data of 1..4 symbolic bytes through inner sinks accepting 1, 2, 3 or all bytes per call",
     "outside": "digests computed inside PackageBuilder::prepare_data (payload, per-file, header digest on build) and on sign (needs real OpenPGP packets): outside reach (DESIGN.md C08); longer data",
@@ -257,7 +259,9 @@ A_UF = ("digests are uninterpreted functions of the exact byte sequence hashed (
 PROPERTIES["C03"] = {
     "harnesses": [MH("c03_digests_m%02d" % m, timeout=1800, inputs="recorded MD5/SHA1/SHA256/payload digest, algorithm id, 2 header store bytes, 3 payload bytes: all symbolic",
                      bounds="tag subset mask %d (1=MD5 2=SHA1 4=SHA256 8=payload digest); one-entry main header" % m,
-                     covers_unsat_ok=["verification succeeds", "verification fails"]) for m in range(16)],
+                     covers_unsat_ok=["verification succeeds", "verification fails"]) for m in range(16)]
+    + [MH("c03_md5len_%d" % l, timeout=900, inputs="recorded MD5 entry of %d symbolic bytes (not 16)" % l, bounds="MD5 tag with a value of the wrong length must never verify",
+          covers_unsat_ok=["verification succeeds", "verification fails"]) for l in (0, 1, 8, 15, 17, 32)],
     "bounds": "every subset of the four digest tags; recorded values, algorithm id, header store bytes and payload bytes symbolic; package shape fixed (main header of one or two entries, 3 payload bytes)",
     "outside": "other package shapes/sizes; the digest implementations themselves (modelled as uninterpreted functions)",
     "assumptions": A_MIR + [A_UF],
@@ -279,12 +283,14 @@ PROPERTIES["C05"] = {
        for k in ("provides", "requires", "conflicts", "obsoletes", "recommends", "suggests", "enhances", "supplements")]
     + [MH("c05_deps_requires_0", inputs="triples with zero items", bounds="empty lists", timeout=300, covers_unsat_ok=["list returned"])]
     + [MH("c05_deps_provides_missing_" + d, inputs="the %s tag of the triple absent" % d, bounds="missing member -> error", timeout=300, covers_unsat_ok=["list returned"]) for d in ("NAME", "FLAGS", "VERSION")]
+    + [MH("c05_fentries_%d_%s" % (n, l), inputs="%d files; every per-file tag present with symbolic contents; sizes %s; decoy package-total tags" % (n, l), timeout=600,
+          bounds="get_file_entries: each entry carries its own mtime/size/flags/owner/link/path") for n in (1, 2) for l in ("u32", "long")]
     + [MH("c05_paths_missing_" + m, inputs="one member of the BASENAMES/DIRINDEXES/DIRNAMES triple absent", bounds="missing member -> error", timeout=300,
           covers_unsat_ok=["paths returned", "error returned"]) for m in ("BASENAMES", "DIRINDEXES", "DIRNAMES")]
     + [MH("c05_hdr_bin_18_0", inputs="as c05_hdr_18_0, store bytes 0..255", bounds="non-UTF-8 data for the non-string types", timeout=900,
           covers_unsat_ok=["accepted with an entry", "header rejected"] + ["decoded a %s entry" % t for t in ("Null", "Char", "Int8", "Int16", "Int32", "Int64", "StringTag", "Bin", "StringArray", "I18NString")])],
     "bounds": "headers with one entry of any type, any offset/count, store up to 8 bytes: decoded data vs an independent decoder, every typed getter of Header (right type -> that value, wrong type -> error, absent tag -> TagNotFound)",
-    "outside": "changelog and scriptlet accessors, the ten-way zip of get_file_entries; more than one entry per PARSED header (the zipped accessors run on headers built as values); multi-locale i18n selection",
+    "outside": "changelog and scriptlet accessors; file digests/capabilities/IMA members of get_file_entries; more than one entry per PARSED header (the zipped accessors run on headers built as values); multi-locale i18n selection",
     "assumptions": A_MIR + A_COMMON[:1] + ["string data ASCII (A2)"],
     "technique": None,
 }
@@ -316,6 +322,7 @@ PROPERTIES["C09"] = {
     + [MH(n, inputs="three records", bounds="Header::from_entries with three records", timeout=900) for n in ("c09_triple_str_i16_i64", "c09_triple_i8_i32_strs")]
     + [MH("c09_sig_pair", inputs="signature-header instance", bounds="Header::<IndexSignatureTag>::from_entries", timeout=900), MH("c09_empty", inputs="no records", bounds="empty header", timeout=300)]
     + [MH("c09_lead_%d" % n, inputs="package name of %d symbolic bytes" % n, bounds="Lead::new + Lead::write", timeout=300) for n in (0, 1, 3, 65, 66, 70)]
+    + [MH("c09_sigpad", inputs="data section size: any u32", bounds="padding_required: 0..7 and aligns to 8", timeout=300)]
     + [MH("c09_clear_%d_%s" % (h, s), inputs="package with %d header store bytes, previous signature header %s" % (h, s), timeout=300,
           bounds="signature header emitted by Package::clear_signatures vs the strict validator") for h in (0, 3) for s in ("empty", "stale")],
     "bounds": "Header::from_entries for every ordered pair of the nine data types (1-2 items each), two triples, both tag instantiations; Lead::new for names of 0..70 bytes; signature padding is decided under C01 (c01_sigpad_*)",
@@ -335,6 +342,26 @@ PROPERTIES["C17"] = {
     "outside": "compression levels (consumed by zstd/xz/bzip2 C libraries behind FFI and flate2): not encodable; the metadata setters take any String and store it (no failure path); reading the source file (file system)",
     "assumptions": A_MIR + ["std::path is modelled (Unix component rules: root, '.', '..', repeated separators); the model is validated on every run against the real builder on 78 concrete destinations",
                             "BTreeMap/BTreeSet membership is modelled, ordering is not (irrelevant for panic-freedom)"],
+    "technique": None,
+}
+
+# ------------------------------------------------------------------------------------------ C12 (MIR engine; partial: containment and no panic)
+_C12_LINK = [(k, a, b) for k in ("regular", "dir", "symlink") for (a, b) in ((1, 1), (1, 3), (2, 2), (2, 4), (2, 5), (3, 5))]
+PROPERTIES["C12"] = {
+    "harnesses": [MH("c12_dirs_%d" % n, inputs="one directory name of %d characters over {'/', '.', 'a'} (every string), no files" % n, bounds="Package::extract, DIRNAMES pre-creation", timeout=600,
+                     covers_unsat_ok=["extraction succeeds", "extraction returns an error"]) for n in (1, 2, 3, 4, 5)]
+    + [MH("c12_file_%s_%d" % (k, n), inputs="one %s entry with a path of %d characters over {'/', '.', 'a'} (every string)" % (k, n), bounds="Package::extract, one file entry", timeout=900, tier=("quick" if n <= 5 else "thorough"),
+          covers_unsat_ok=["extraction succeeds", "extraction returns an error"]) for k in ("regular", "dir", "symlink", "special") for n in (2, 4, 5, 6)]
+    + [MH("c12_link_then_%s_%d_%d" % (k, a, b), inputs="a symbolic-link entry with a path of %d characters followed by a %s entry with a path of %d characters, both over {'/', '.', 'a', 'b'} (every pair)" % (a, k, b),
+          bounds="Package::extract, two file entries", timeout=1800, tier=("quick" if a + b <= 6 else "thorough"), covers_unsat_ok=["extraction succeeds", "extraction returns an error"]) for (k, a, b) in _C12_LINK],
+    "bounds": "one directory name up to 5 characters; one file entry with a path up to 6 characters (5 in the quick tier); a symbolic link followed by one more entry (paths up to 3 and 5 characters; 2 and 4 in the quick tier); characters over {'/', '.', 'a'(, 'b')}",
+    "outside": "the positive half of the property (content, permission bits and link targets that end up on disk): effects of real system calls are not modelled; more than two entries; hard links, "
+               "time-of-check/time-of-use races with other processes; reading the payload (Package::files is replaced by a list of entries: covered under C04 cpio harnesses)",
+    "assumptions": A_MIR + ["file system = recording stub: every call may succeed or fail, exists() answers arbitrarily; the target directory is fresh (create_dir succeeded), so everything below it was made by this run and "
+                            "symlink_metadata answers from the model's set of links created so far",
+                            "containment oracle: every mutating call gets a path that is lexically below the target (no '..'), does not lead through a link created earlier, and, for calls that follow a final link "
+                            "(File::create, set_permissions, create_dir_all), is not itself such a link",
+                            "std::path is modelled (Unix component rules), validated on every run against the real crate on concrete inputs (C17 validation set)"],
     "technique": None,
 }
 
@@ -424,7 +451,6 @@ NOT_APPLICABLE = {
     "C07": "needs the builder, FFI compressors and the cpio writer/reader pair whose thirteen format!/from_str_radix fields kept a 3-byte round trip beyond 15 min of symbolic execution",
     "C10": "every step goes through real OpenPGP packet parsing and public-key cryptography (RSA/EdDSA/ECDSA big-number arithmetic), outside SAT reach; an abstract signer cannot produce packets the real parser accepts",
     "C11": "nondeterminism comes from RandomState (OS randomness behind FFI); SipHash+hashbrown with a symbolic seed did not finish for a 2-element set; the clamp logic lives inside the unreachable prepare_data; cross-process runs are not expressible",
-    "C12": "effects are file-system system calls (no model; symlink resolution is kernel semantics) and Path::join/strip_prefix/components exhausted 20 GB at four symbolic characters",
 }
 
 PROPERTIES["C13"].update(claim="compare_version_string is symbolically executed from its MIR for every pair of ASCII strings up to the stated lengths (all 127 values per byte): "
@@ -460,5 +486,8 @@ PROPERTIES["C02"].update(claim="Package::verify_signature is symbolically execut
 PROPERTIES["C09"].update(claim="Header::from_entries (sorting, offset assignment, alignment, region tag and trailer) is symbolically executed from MIR for every ordered pair of data types and checked by a strict validator "
                          "modelled on rpm's own header verification, plus parse-back of the emitted bytes; Lead::new for names of 0..70 bytes. Whole builder output and the cpio writer are outside reach.", note=_NOTE_MIR)
 
+PROPERTIES["C12"].update(claim="Partial (containment and panic-freedom only): Package::extract is symbolically executed from MIR against a recording file-system stub with the extraction's own symbolic links as state: "
+                         "for every directory name / entry path within the bounds, every path handed to a mutating file-system call is below the target, never through or onto a link an earlier entry created, and the call "
+                         "returns Ok or Err. That archived content and permission bits arrive on disk is outside reach.", note=_NOTE_MIR)
 PROPERTIES["C17"].update(claim="Partial: the builder's destination handling (PackageBuilder::add_data) is symbolically executed from MIR for every destination string up to 6 characters over {'/', '.', 'a'}: "
                          "it returns Ok or InvalidDestinationPath, never panics; FileOptionsBuilder::caps reports invalid capability text as InvalidCapabilities. Compression levels are outside reach (FFI).", note=_NOTE_MIR)
